@@ -35,3 +35,4 @@ def run(F, X, rep):
     bodies = p_c18.tlv_bodies(F)
     p_c18.c18_t1(F, X, rep, bodies)
     p_c18.c18_l1(F, X, rep, bodies)
+    p_c18.c18_e(F, X, rep, bodies)
